@@ -5,6 +5,7 @@ import (
 	"context"
 	"encoding/json"
 	"fmt"
+	"io"
 	"os"
 	"path/filepath"
 	"runtime/debug"
@@ -70,6 +71,7 @@ BEGIN {
 	if (mode == "wopen") { print "w1" > "out1"; print "w2" > "out2"; printf "a" >> "out1"; x = "wopen" }
 	if (mode == "ropen") { r1 = (getline l1 < "f1"); r2 = (getline < "f2"); r5 = (getline l5 < "-"); r4 = (getline) }
 	if (mode == "sys") { x = system("true") }
+	if (mode == "cmdopen") { print "to-cat" | "cat"; r1 = ("emit a b" | getline l1); x = system("emit s0"); print "again" | "cat" }
 	if (mode == "setmodes") { INPUTMODE = "csv header"; OUTPUTMODE = "tsv" }
 	if (mode == "probe") {
 		if (full) dumpvars("B")
@@ -86,9 +88,16 @@ BEGIN {
 		print "B print", "o", "p,q"
 		s = 0; for (j = 0; j < 300; j++) s += j; printf "B loop %s\n", s
 		printf "B length %s\n", length("h\303\251")
+		printf "B fmtc [%s]\n", sprintf("%c%c", "\303\251x", 233)
+		printf "B dynre %s %s\n", ("abc" ~ ("^" "a")), ("h\303\251" ~ ("^h." "$"))
+		if (cmd) {
+			gr = system("emit s1"); printf "B system %s\n", gr
+			gr = ("emit g1 g2" | getline pl); printf "B cmdgetline %s [%s]\n", gr, pl
+			print "to-cat" | "cat"; gr = close("cat"); printf "B closecat %s\n", gr
+		}
 	}
 }
-mode == "plain" { if (NR == 2) sr = srand(5); cnt++; last = $0; arr[NR] = $1; if (match($0, /[b-d2-3]+/)) rs = RSTART; r = rand(); $2 = "X"; nf = NF; len = length("h\303\251") }
+mode == "plain" { fc = sprintf("%c%c", "\303\251x", 233); dr = ($0 ~ ("^" "a")) + ($0 ~ ("^h." "$")); if (NR == 2) sr = srand(5); cnt++; last = $0; arr[NR] = $1; if (match($0, /[b-d2-3]+/)) rs = RSTART; r = rand(); $2 = "X"; nf = NF; len = length("h\303\251") }
 mode == "csv" || mode == "setmodes" { v = @"b"; fld = FIELDS[1]; cnt++; print v, fld }
 mode == "exitrule" && NR == 2 { exit 3 }
 mode == "exitrule" { cnt++ }
@@ -204,6 +213,9 @@ func c14Alphabet(thorough bool) []c14Op {
 		cx("spinfunc", 1500, c14Cfg{Stdin: "a\n", Vars: c14v("spinfunc")}),
 		cx("spinrule", 50, c14Cfg{Stdin: "a b\nc d\n", Vars: c14v("spinrule")}),
 		cx("plain", 1, c14Cfg{Stdin: "a b\nc d e\n", Vars: c14v("plain")}),
+		cx("plain", 0, c14Cfg{Stdin: "a b\nc d e\n", Vars: c14v("plain")}), // completes under a context that is cancelled afterwards
+		ex("cmdopen", c14Cfg{Stdin: "a\n", Vars: c14v("cmdopen")}),
+		cx("cmdopen", 0, c14Cfg{Stdin: "a\n", Vars: c14v("cmdopen")}),
 		ex("wopen", c14Cfg{Stdin: "a\n", Vars: c14v("wopen")}),
 		ex("ropen", c14Cfg{Stdin: "s1 s2\ns3\n", Vars: c14v("ropen")}),
 		ex("sandbox-w", c14Cfg{Stdin: "a\n", NoFileWrites: true, Vars: c14v("wopen")}),
@@ -236,7 +248,7 @@ func c14Probes() []c14Probe {
 		if at != "0" {
 			io = "0" // in header mode every getline file would replace the header names
 		}
-		return []string{"mode", "probe", "at", at, "io", io}
+		return []string{"mode", "probe", "at", at, "io", io, "cmd", io}
 	}
 	return []c14Probe{
 		{Name: "default", Cfg: c14Cfg{Stdin: "p q r\ns t\n", Vars: pv("0")}},
@@ -247,7 +259,7 @@ func c14Probes() []c14Probe {
 		{Name: "args", Cfg: c14Cfg{Stdin: "unused\n", Args: []string{"f1", "q=7", "f2"}, Vars: pv("0")}},
 		{Name: "tsv-chars", Cfg: c14Cfg{Stdin: "a\tb c\n", Chars: true, Vars: append(pv("0"), "INPUTMODE", "tsv", "OUTPUTMODE", "csv")}},
 		{Name: "ctx", Ctx: true, Cfg: c14Cfg{Stdin: "p q r\ns t\n", Vars: pv("0")}},
-		{Name: "sandbox", Cfg: c14Cfg{Stdin: "p q\n", NoExec: true, NoFileReads: true, NoFileWrites: true, Vars: pv("0")}},
+		{Name: "sandbox", Cfg: c14Cfg{Stdin: "p q\n", NoExec: true, NoFileReads: true, NoFileWrites: true, Vars: append(pv("0"), "cmd", "0")}},
 	}
 }
 
@@ -266,6 +278,70 @@ func (p c14Probe) cfgFor(oracle int) c14Cfg {
 	return cf
 }
 
+// c14World is a synchronous stand-in for child processes (scripts: "emit w…"
+// prints its words on one line, "cat" copies its standard input to its
+// standard output when it is waited for). Like os/exec, Start refuses a
+// command whose context is already done.
+type c14World struct{}
+
+type c14Proc struct {
+	in  bytes.Buffer
+	out *bytes.Reader
+}
+
+var c14Procs = map[*vexp.Cmd]*c14Proc{}
+
+func c14ProcOf(c *vexp.Cmd) *c14Proc {
+	p := c14Procs[c]
+	if p == nil {
+		p = &c14Proc{}
+		c14Procs[c] = p
+	}
+	return p
+}
+
+type c14In struct{ p *c14Proc }
+
+func (w c14In) Write(b []byte) (int, error) { return w.p.in.Write(b) }
+func (w c14In) Close() error                { return nil }
+
+type c14Out struct{ p *c14Proc }
+
+func (r c14Out) Read(b []byte) (int, error) { return r.p.out.Read(b) }
+func (r c14Out) Close() error               { return nil }
+
+func c14Script(c *vexp.Cmd) []string { return strings.Fields(c.Args[len(c.Args)-1]) }
+
+func (c14World) StdinPipe(c *vexp.Cmd) (io.WriteCloser, error) { return c14In{c14ProcOf(c)}, nil }
+func (c14World) StdoutPipe(c *vexp.Cmd) (io.ReadCloser, error) {
+	p := c14ProcOf(c)
+	p.out = bytes.NewReader(nil)
+	return c14Out{p}, nil
+}
+func (c14World) Start(c *vexp.Cmd) error {
+	if ctx := c.Ctx(); ctx != nil && ctx.Err() != nil {
+		return ctx.Err()
+	}
+	p := c14ProcOf(c)
+	if w := c14Script(c); len(w) > 0 && w[0] == "emit" {
+		data := strings.Join(w[1:], " ") + "\n"
+		if p.out != nil {
+			p.out = bytes.NewReader([]byte(data))
+		} else if c.Stdout != nil {
+			io.WriteString(c.Stdout, data)
+		}
+	}
+	return nil
+}
+func (c14World) Wait(c *vexp.Cmd) error {
+	p := c14ProcOf(c)
+	delete(c14Procs, c)
+	if w := c14Script(c); len(w) > 0 && w[0] == "cat" && c.Stdout != nil {
+		c.Stdout.Write(p.in.Bytes())
+	}
+	return nil
+}
+
 type c14Env struct {
 	prog     *parser.Program
 	dir      string
@@ -276,6 +352,7 @@ type c14Budget struct{}
 
 func c14NewEnv(c *core.Ctx) *c14Env {
 	e := &c14Env{prog: awk.MustParse(c14Src, nil), maxSteps: 200000}
+	vexp.SetWorld(&vexp.World{Impl: c14World{}})
 	dir, _ := os.Getwd()
 	if filepath.Base(dir) != fmt.Sprintf("fs-%s-%d", c.ID, c.Shard) {
 		dir = filepath.Join(dir, fmt.Sprintf("fs-%s-%d", c.ID, c.Shard))
@@ -583,14 +660,15 @@ func init() {
 	core.Register(&core.Check{
 		ID:    "C14",
 		Level: "model_checking",
-		Rule: "explicit-state search over the real Interpreter: state = history of operations on one interp.Interpreter, operation = Execute/ExecuteContext with one of ~30 configurations of one program (plain, FS/RS/ORS/SUBSEP via Vars, CSV/TSV header by Config/Vars/BEGIN, Args, error in function/loop/for-in/rule, exit 3 in BEGIN/rule/END, context cancelled at VM step k, streams left open, sandbox flags, Chars, CRLF, rejected configurations) or ResetVars/ResetRand; " +
+		Rule: "explicit-state search over the real Interpreter: state = history of operations on one interp.Interpreter, operation = Execute/ExecuteContext with one of ~33 configurations of one program (plain, FS/RS/ORS/SUBSEP via Vars, CSV/TSV header by Config/Vars/BEGIN, Args, error in function/loop/for-in/rule, exit 3 in BEGIN/rule/END, context cancelled at VM step k, file and command streams left open, completed run whose context is cancelled afterwards, sandbox flags, Chars, CRLF, rejected configurations) or ResetVars/ResetRand; " +
 			"successor = replay of the history on a fresh Interpreter + one more operation (transitions); states de-duplicated by VerifDump() (states = distinct dumps), BFS to depth 2 (quick) / 3 (thorough); in every state 9 probe configurations x 2 oracles are run on the reused interpreter and compared with ExecProgram on a new one; distinct = distinct state dumps and probe observations",
 		Assumptions: []string{
 			"oracle 2 (no ResetVars) pins FS OFS ORS RS SUBSEP CONVFMT OFMT through Config.Vars on both sides and the probe then reads no global, array, RT, RSTART/RLENGTH, ARGV, ENVIRON or FIELDS: these are 'variables and arrays' that may carry over",
 			"ResetRand is called before every probe (both oracles): the property makes no claim about the random sequence without it",
 			"files f1/f2 are read-only fixtures; out1/out2 are removed before every history replay and before every probe run (all files are closed by Execute's closeAll at that point)",
 			"for-in visits keys in sorted order in the instrumented build",
-			"no child processes are started (C13 covers command streams); NoExec is exercised through a rejected system() call",
+			"child processes are a synchronous in-process stand-in (emit/cat scripts) that, like os/exec, refuses to start under a context that is already done; C13 covers concurrent command streams",
+			"VerifDump includes the keys and values of the regex and format caches, so histories that differ only in cache contents are distinct states",
 			"a run that does not stop within 200000 VM steps is a harness error (cancellation itself is C15)",
 		},
 		Run:    c14Run,
